@@ -76,6 +76,13 @@ func init() {
 		out.WriteString("\n/-- `needsDupCheck(ix, rec)` as a function of `ix.Primary`, `ix.Mode == 'u'`,\n" +
 			"`ix.ContainsKey` and `uniqueIndexEmpty(rec, ix.Ixspec)` -/\n")
 		out.WriteString("def needsDupCheck (primary modeU containsKey uniqueEmpty : Bool) : Bool :=\n" + body + "\n")
+		// uniqueIndexEmpty: a loop over is.Fields with an early return; translated to a recursive
+		// function over the list "field i of the record is empty"
+		ue, err := uniqueEmptyFn(tg.fn("uniqueIndexEmpty"))
+		if err != nil {
+			return err
+		}
+		out.WriteString("\n/-- `uniqueIndexEmpty(rec, is)` over `es[i] = (rec.GetRaw(is.Fields[i]) == \"\")` -/\n" + ue)
 		out.WriteString("\nend Gsu.Gen.Check\n")
 		return nil
 	})
@@ -161,4 +168,52 @@ func dupExpr(e ast.Expr) (string, error) {
 		}
 	}
 	return "", fmt.Errorf("needsDupCheck: unsupported expression at %v", e.Pos())
+}
+
+// uniqueEmptyFn expects: for _, f := range is.Fields { if rec.GetRaw(f) <op> "" { return <b1> } }; return <b2>
+func uniqueEmptyFn(fd *ast.FuncDecl) (string, error) {
+	bad := fmt.Errorf("uniqueIndexEmpty: unexpected shape")
+	if len(fd.Body.List) != 2 {
+		return "", bad
+	}
+	rs, ok := fd.Body.List[0].(*ast.RangeStmt)
+	ret, ok2 := fd.Body.List[1].(*ast.ReturnStmt)
+	if !ok || !ok2 || len(rs.Body.List) != 1 {
+		return "", bad
+	}
+	sel, ok := rs.X.(*ast.SelectorExpr)
+	if !ok || sel.Sel.Name != "Fields" {
+		return "", bad
+	}
+	ifs, ok := rs.Body.List[0].(*ast.IfStmt)
+	if !ok || ifs.Else != nil || ifs.Init != nil || len(ifs.Body.List) != 1 {
+		return "", bad
+	}
+	be, ok := ifs.Cond.(*ast.BinaryExpr)
+	if !ok || (be.Op != token.EQL && be.Op != token.NEQ) {
+		return "", bad
+	}
+	call, ok := be.X.(*ast.CallExpr)
+	lit, ok2 := be.Y.(*ast.BasicLit)
+	if !ok || !ok2 || lit.Value != `""` {
+		return "", bad
+	}
+	if se, ok := call.Fun.(*ast.SelectorExpr); !ok || se.Sel.Name != "GetRaw" {
+		return "", bad
+	}
+	inner, ok := ifs.Body.List[0].(*ast.ReturnStmt)
+	if !ok {
+		return "", bad
+	}
+	b1, ok := inner.Results[0].(*ast.Ident)
+	b2, ok2 := ret.Results[0].(*ast.Ident)
+	if !ok || !ok2 {
+		return "", bad
+	}
+	cond := "e"
+	if be.Op == token.NEQ {
+		cond = "(!e)"
+	}
+	return fmt.Sprintf("def uniqueIndexEmpty : List Bool → Bool\n  | [] => %s\n  | e :: r => if %s then %s else uniqueIndexEmpty r\n",
+		b2.Name, cond, b1.Name), nil
 }
